@@ -30,7 +30,7 @@ ASSUMPTIONS = [
 BIN = sorted(tt.BINARY)
 
 
-HIST_ALPHA = {'build': 6, 'repeat': 6, 'apply': 14, 'funcop': 6, 'not': 2, 'ite': 8, 'drop': 8, 'gc': 6, 'gc_roots': 2, 'swap': 3, 'sift': 1, 'reorder_to': 1, 'var': 1, 'undeclare': 2, 'declare': 1, 'add_var': 1, 'quantify': 1, 'let_compose': 1}
+HIST_ALPHA = {'build': 6, 'repeat': 6, 'churn': 4, 'fork': 3, 'compare_all': 5, 'apply': 14, 'funcop': 6, 'not': 2, 'ite': 8, 'drop': 8, 'gc': 6, 'gc_roots': 2, 'swap': 3, 'sift': 1, 'reorder_to': 1, 'var': 1, 'undeclare': 2, 'declare': 1, 'add_var': 1, 'quantify': 1, 'let_compose': 1}
 
 
 def _hist_nontrivial(w):
@@ -45,9 +45,24 @@ def _hist_plan(tier, seed):
             for s in range(8 if tier == 'thorough' else 4)]
 
 
+HIST_ALPHA_AR = {'build': 8, 'funcop': 14, 'compare_all': 8, 'churn': 8,
+                 'repeat': 4, 'drop': 6, 'gc': 2, 'sift': 3, 'reorder_to': 3,
+                 'ite': 2, 'apply': 4, 'traverse': 1, 'copy_handle': 1}
+
+
 def plan(tier, seed):
     specs = []
     specs += _hist_plan(tier, seed)
+    # the Function operators and comparisons of dd.autoref, with handles
+    # released and node numbers re-used across collections / reorderings
+    for s_ in range(6 if tier == 'thorough' else 3):
+        specs.append(dict(kind='history', autoref=True,
+                          seed=seed * 1000 + 700 + s_,
+                          cfgs=[dict(kind='autoref', nmax=3, init_vars=3),
+                                dict(kind='autoref', nmax=4, init_vars=3),
+                                dict(kind='autoref', nmax=4, init_vars=4)],
+                          examples=1200 if tier == 'thorough' else 250,
+                          min_len=8, max_len=35))
     ords = fix.orders(3)
     for oi, order in enumerate(ords):
         for variant in ('fresh', 'used'):
@@ -370,7 +385,9 @@ def replay_into(case, out):
 
 def run(spec, out):
     if spec['kind'] == 'history':
-        return H.run_random(spec, out, HIST_ALPHA, _hist_nontrivial)
+        return H.run_random(
+            spec, out, HIST_ALPHA_AR if spec.get('autoref') else HIST_ALPHA,
+            _hist_nontrivial)
     missing = set(__import__('dd._abc')._abc.BINARY_OPERATOR_SYMBOLS) - \
         set(tt.BINARY) - set(tt.QUANT)
     if missing:
